@@ -161,14 +161,14 @@ func c19(c *an.Ctx) {
 	r1.AddSites(len(routes))
 	r1.Floor(60, "route literals")
 	anonymousOK := map[string]string{
-		"OPTIONS *":            "CORS pre-flight (the property allows pre-flight requests anonymously)",
-		"GET /ping":            "liveness",
-		"HEAD /ping":           "liveness",
-		"GET /status":          "status (deprecated liveness alias)",
-		"HEAD /status":         "status (deprecated liveness alias)",
-		"GET /runtime_config":  "read-only dump of process limits (diagnostic)",
-		"GET /metrics":         "Prometheus metrics of the process itself (diagnostic; no user data)",
-		"GET /debug/requests":  "request statistics of the process (diagnostic)",
+		"OPTIONS *":           "CORS pre-flight (the property allows pre-flight requests anonymously)",
+		"GET /ping":           "liveness",
+		"HEAD /ping":          "liveness",
+		"GET /status":         "status (deprecated liveness alias)",
+		"HEAD /status":        "status (deprecated liveness alias)",
+		"GET /runtime_config": "read-only dump of process limits (diagnostic)",
+		"GET /metrics":        "Prometheus metrics of the process itself (diagnostic; no user data)",
+		"GET /debug/requests": "request statistics of the process (diagnostic)",
 	}
 	var dump []string
 	for _, rt := range routes {
@@ -705,12 +705,13 @@ func init() {
 }
 
 // c19everyPrivilege:
-//   R7  statement authorisation checks EVERY required privilege of EVERY
-//       statement (each one is either tested or the request is refused);
-//       nothing learnt from an earlier privilege excuses a later one.
-//   R8  the write authoriser asks the meta client for the user on every call and
-//       tests the write privilege of what it got; authorisers keep no state of
-//       their own (a remembered user survives REVOKE / DROP USER).
+//
+//	R7  statement authorisation checks EVERY required privilege of EVERY
+//	    statement (each one is either tested or the request is refused);
+//	    nothing learnt from an earlier privilege excuses a later one.
+//	R8  the write authoriser asks the meta client for the user on every call and
+//	    tests the write privilege of what it got; authorisers keep no state of
+//	    their own (a remembered user survives REVOKE / DROP USER).
 func c19everyPrivilege(c *an.Ctx) {
 	const M = "lib/util/lifted/influx/meta"
 	const A = "lib/util/lifted/influx/auth"
